@@ -426,8 +426,47 @@ def job_taper(cfg):
     return res
 
 
+def job_session(cfg):
+    """Every rule of every shape requested in ONE process, in an enumerated order (shape by shape, by ascending / descending point count
+    across shapes, each twice): the table handed out is the table of the shape and count asked for, whatever was asked before.  Ground facts
+    per request: points inside the reference element of THAT shape, sum of weights = its measure, first moments = its exact centroid moments."""
+    res = JobResult(cfg)
+    new_context()
+    from EasyFEA.FEM._gauss import Gauss
+    from EasyFEA.FEM._utils import ElemType
+
+    reqs = [(shape, n) for shape in SHAPES for n in documented(shape)[0]]
+    order = cfg["order"]
+    if order == "by_count":
+        reqs = sorted(reqs, key=lambda r: (r[1], r[0]))
+    elif order == "by_count_desc":
+        reqs = sorted(reqs, key=lambda r: (-r[1], r[0]), reverse=False)
+    elif order == "reversed":
+        reqs = reqs[::-1]
+    reqs = reqs + reqs[::-1]
+    res.functions |= {"Gauss.__init__", "Gauss._Gauss_factory_nPg", "Gauss._Triangle/_Quadrangle/_Tetrahedron/_Hexahedron/_Prism"}
+    for k, (shape, n) in enumerate(reqs):
+        g = Gauss(ElemType[SHAPES[shape]], int(n))
+        pts = np.asarray(g.coord, dtype=float)
+        w = np.asarray(g.weights, dtype=float)
+        dim = DIM[shape]
+        ok = pts.shape[0] == n and w.size == n and all(inside(shape, p_[:dim]) for p_ in pts)
+        tot = sum(Fraction(float(x)) for x in w)
+        ok = ok and abs(tot - REF_MEASURE[shape]) <= Fraction(1, 10 ** 11)
+        for d in range(dim):
+            ex = tuple(1 if j == d else 0 for j in range(dim))
+            m1 = sum(Fraction(float(wi)) * Fraction(float(p_[d])) for wi, p_ in zip(w, pts))
+            ok = ok and abs(m1 - ref_integral(shape, ex)) <= Fraction(1, 10 ** 11)
+        info = {"order": order, "request_index": k, "shape": shape, "nPg": n, "sum_of_weights": float(tot), "expected": float(REF_MEASURE[shape]), "points_returned": int(pts.shape[0])}
+        res.record(f"session {order}: request {k} ({shape}, {n})", Outcome("held", how="ground-exact") if ok else Outcome("cex", env={}, how="ground", detail=str(info)),
+                   lambda env, info=info, ok=ok: ((not ok), info), key=f"session {order}: {shape} nPg={n}")
+    res.twin(f"session {order} twin", True)
+    res.paths = 1
+    return res
+
+
 def job(cfg):
-    return {"rule": job_rule, "factory": job_factory, "measure": job_measure, "quad": job_quad_general, "taper": job_taper}[cfg["kind_"]](cfg)
+    return {"session": job_session, "rule": job_rule, "factory": job_factory, "measure": job_measure, "quad": job_quad_general, "taper": job_taper}[cfg["kind_"]](cfg)
 
 
 def main():
@@ -440,6 +479,8 @@ def main():
             kind, order = orders[n]
             configs.append({"kind_": "rule", "shape": shape, "nPg": n, "kind": kind, "order": order, "cross": True})
     configs.append({"kind_": "factory"})
+    for order in ("by_shape", "by_count", "by_count_desc", "reversed"):
+        configs.append({"kind_": "session", "order": order})
     elems = LAGRANGE_TYPES if tier == "thorough" else ["SEG2", "SEG3", "SEG5", "TRI3", "TRI6", "TRI10", "QUAD4", "QUAD8", "QUAD9", "TETRA4", "TETRA10", "HEXA8", "PRISM6", "PRISM15"]
     for et in elems:
         configs.append({"kind_": "measure", "elem": et, "deg": 1})
